@@ -116,7 +116,7 @@ class TimerScenario:
 
     def _fire(self, cid):
         sim, m = self.sim, self.m
-        sim.step(self.STEP_CAP)
+        sim.step(self.STEP_CAP * self.sim.depth)
         sim.event("ran", cid, m.now)
         self.counts["ran"] += 1
         self.chk(m.ran(cid), "in-call")
@@ -220,7 +220,7 @@ class TimerScenario:
         return (1, 1) if self.order else (0, 0)
 
     def do_op(self, op, where):
-        self.sim.step(self.STEP_CAP)
+        self.sim.step(self.STEP_CAP * self.sim.depth)
         if op == "callLater":
             self.op_call_later(where)
         elif op == "cancel":
